@@ -47,6 +47,8 @@ type impl struct {
 	// gateSave (pools persisting through an AllocationStore): the next SaveAllocation parks before it writes;
 	// parked is closed when it got there, open lets it go on
 	gateSave func() (parked <-chan struct{}, open func())
+	// gateSaveFail: the next store write parks and, once let go, FAILS
+	gateSaveFail func() (parked <-chan struct{}, open func())
 }
 
 // Adapter describes one (implementation, geometry) pair.
@@ -179,6 +181,19 @@ type KVStore struct {
 	watchers []func(key string, value []byte, deleted bool)
 	Calls    int
 	Perm     int // index of the permutation applied to the sorted Query result
+	// scheduler gate: the next Put parks before it touches the store and, once let go, fails
+	gmu                  sync.Mutex
+	gateParked, gateOpen chan struct{}
+}
+
+// ArmFailingPut: the next Put parks (parked is closed when it got there); after open() it returns the injected error.
+func (s *KVStore) ArmFailingPut() (<-chan struct{}, func()) {
+	parked, open := make(chan struct{}), make(chan struct{})
+	s.gmu.Lock()
+	s.gateParked, s.gateOpen = parked, open
+	s.gmu.Unlock()
+	var once sync.Once
+	return parked, func() { once.Do(func() { close(open) }) }
 }
 
 // nthPerm returns the k-th permutation (Lehmer order) of 0..n-1.
@@ -268,6 +283,15 @@ func (s *KVStore) Get(ctx context.Context, key string) ([]byte, error) {
 	return nil, errors.New("not found")
 }
 func (s *KVStore) Put(ctx context.Context, key string, value []byte) error {
+	s.gmu.Lock()
+	parked, open := s.gateParked, s.gateOpen
+	s.gateParked, s.gateOpen = nil, nil
+	s.gmu.Unlock()
+	if parked != nil {
+		close(parked)
+		<-open
+		return errInjected
+	}
 	s.mu.Lock()
 	defer s.mu.Unlock()
 	if s.FailPut {
@@ -344,6 +368,7 @@ func distributedAdapter(g Geometry, mode allocator.PoolMode, grace int) Adapter 
 			return g.UnitOfNet(p), nil
 		}
 		im.alloc = doAlloc
+		im.gateSaveFail = st.ArmFailingPut
 		im.allocF = func(id string) (int, error) {
 			st.FailPut = true
 			u, err := doAlloc(id)
